@@ -12,10 +12,10 @@ THEOREMS = [
     'OpenHTF.Plugs.c08_ctor_failure_error_no_phase',
     'OpenHTF.Plugs.c08_init_constructs_only_requested',
 ]
-PENDING = ['abort as a fault (C04 machinery)']
 RULE = ('all assignments of <=3 plug classes to <=3 phases + test_start, fault positions enumerated: constructor raises '
         'for each class, tearDown raises / hangs / hangs and cannot be killed (abandoned after plug_teardown_timeout_s=0.05 s), a phase fails '
-        '(exception, STOP, timeout) at each position, terminal test_start; plus random trees with plugs; compared: full '
+        '(exception, STOP, timeout) at each position, terminal test_start; an operator abort at every (quick: every 5th) '
+        'scheduling step of two plug programs (cooperative scheduler); plus random trees with plugs; compared: full '
         'event log (constructors, bodies, diagnosers, tearDowns, callbacks), records; instance identity seen by phases')
 ASSUMPTIONS = ['the iteration order of the plug-type set is taken from the real run (a parameter of the model)',
                'plug_teardown_timeout_s > 0 for hanging tearDowns (0 = wait forever, excluded by the property)']
@@ -24,7 +24,51 @@ CONST_PREFIXES = ['c08.']
 PROCS = 12
 
 
+ABORT_PROGRAMS = {
+    'plugs': None,      # the C04 program with two plug classes
+    'three': {'nodes': [dict({'t': 'P', 'id': 1, 'opts': {}, 'beh': [{'raw': 'cont'}]}, plugs=[['a', 0], ['b', 1]]),
+                        {'t': 'G', 's': [dict({'t': 'P', 'id': 2, 'opts': {}, 'beh': [{'raw': 'cont'}]}, plugs=[['c', 2]])],
+                         'm': [dict({'t': 'P', 'id': 3, 'opts': {}, 'beh': [{'raw': 'cont', 'sleep': 0.02, 'steps': 2}]},
+                                    plugs=[['a', 0]])],
+                         'td': [dict({'t': 'P', 'id': 4, 'opts': {}, 'beh': [{'raw': 'cont'}]}, plugs=[['c', 2]])]}],
+              'plugs': {'0': {}, '1': {'td': 'raise'}, '2': {}}, 'start': dict({'t': 'P', 'id': 9, 'opts': {}, 'beh': [{'raw': 'cont'}]},
+                                                                                   plugs=[['s', 1]])},
+}
+
+
+def _run_abort(case):
+  """operator abort as the fault: one abort at scheduling step k; the plug lifecycle must hold on that exit path too"""
+  from harness import sched_exec
+  from harness.props import c04
+  from openhtf.core import test_descriptor
+  sched_exec.install(False)
+  test_descriptor.Test.HANDLED_SIGINT_ONCE = False
+  prog = dict(ABORT_PROGRAMS[case['prog']] or c04.PROGRAMS['plugs'])
+  prog['callbacks'] = [False]
+  k = case['k']
+
+  def aborter(env):
+    s = env['sched']
+    test = env['test']
+    s.block(lambda: (s.step >= k and getattr(test, '_executor', None) is not None) or
+            ('execute-returned',) in env['log'], None, 'abort-trigger')
+    if ('execute-returned',) in env['log']:
+      return
+    test.abort_from_sig_int()
+
+  def prepare(env):
+    env['ctx'].record_ends = True
+  out = sched_exec.run_case(prog, choose=c04._chooser(case), aux=[('ab1', aborter)], prepare=prepare, max_steps=40000)
+  test_descriptor.Test.TEST_INSTANCES.clear()
+  if out['deadlock'] or out['stuck']:
+    return {'tokens': ['O:DEADLOCK']}
+  nclasses = len(prog['plugs'])
+  return {'tokens': out['tokens'] + ['X:ret:%d' % (1 if out['ret'] else 0)], 'nclasses': nclasses}
+
+
 def run_real(case):
+  if case.get('kind') == 'abort':
+    return _run_abort(case)
   out = ec.run_test_case(case)
   return {'tokens': out['tokens'] + ['X:ret:%d' % (1 if out['ret'] else 0)]}
 
@@ -42,6 +86,8 @@ def _classes_in(node, acc):
 
 
 def encode(case, obs):
+  if case.get('kind') == 'abort':
+    return 'C08 ABORT %d # %s' % (obs.get('nclasses', 0), ' '.join(obs['tokens']))
   toks = obs['tokens']
   start = []
   if case.get('start') is not None:
@@ -68,10 +114,14 @@ def encode(case, obs):
 
 
 def classify(case, obs):
+  if case.get('kind') == 'abort':
+    return 'abort/' + case['prog'] + '/' + obs['tokens'][0]
   return case.get('src', '?') + '/' + obs['tokens'][0]
 
 
 def nontrivial_key(case, obs):
+  if case.get('kind') == 'abort':
+    return repr(sorted(case.items(), key=str)) if any(t.startswith('eP+') for t in obs['tokens']) else None
   if any(t.startswith('eP+') for t in obs['tokens']):
     return repr(sorted(case.items(), key=str))
   return None
@@ -146,6 +196,12 @@ def gen_cases(rng, tier):
     c['callbacks'] = [r.random() < 0.2 for _ in range(r.choice([0, 1, 2]))]
     c['src'] = 'random'
     cases.append(c)
+  from harness.props import c04
+  for name in ('plugs', 'three'):
+    prog = ABORT_PROGRAMS[name] or c04.PROGRAMS['plugs']
+    n = 400
+    for k in range(0, n, 5 if tier == 'quick' else 1):
+      cases.append({'kind': 'abort', 'prog': name, 'k': k})
   return cases
 
 
@@ -164,5 +220,5 @@ MANIFEST = {
             'constructs only from types. Tie: real runs with instrumented plug classes, faults enumerated.',
     'note': 'Trusted: Lean kernel + standard axioms; harness (instrumented plug classes, 0.05 s tearDown timeout); Lean '
             'driver. Modelled not verified: the _PlugTearDownThread containment of a raising/hanging tearDown (checked by '
-            'the tie); set iteration order is a model parameter taken from the real run. Abort as a fault is pending (C04).',
+            'the tie); set iteration order is a model parameter taken from the real run.',
 }
